@@ -352,12 +352,12 @@ func (g *GcsEmu) handleGcsMediaRequest(ctx context.Context, baseUrl HttpBaseUrl,
 		return
 	}
 
-	w.Header().Set("Content-Type", obj.ContentType)
+	setMetaHeader(w, "Content-Type", obj.ContentType)
 	w.Header().Set("X-Goog-Generation", strconv.FormatInt(obj.Generation, 10))
 	w.Header().Set("X-Goog-Metageneration", strconv.FormatInt(obj.Metageneration, 10))
 	w.Header().Set("Access-Control-Allow-Origin", "*")
 	w.Header().Set("Access-Control-Expose-Headers", "Content-Type, Content-Length, Content-Encoding, Date, X-Goog-Generation, X-Goog-Metageneration")
-	w.Header().Set("Content-Disposition", obj.ContentDisposition)
+	setMetaHeader(w, "Content-Disposition", obj.ContentDisposition)
 
 	if obj.ContentEncoding == "gzip" {
 		if strings.Contains(acceptEncoding, "gzip") {
@@ -385,6 +385,31 @@ func (g *GcsEmu) handleGcsMediaRequest(ctx context.Context, baseUrl HttpBaseUrl,
 	if _, err := w.Write(contents); err != nil {
 		g.gapiError(w, http.StatusInternalServerError, fmt.Sprintf("failed to copy from %s/%s: %s", bucket, filename, err))
 	}
+}
+
+// setMetaHeader sets a response header to a value taken from object metadata, which clients choose freely. A value
+// that cannot be a header field value (it holds control characters) is left out: net/http would put it on the wire as
+// it is, and clients refuse the whole response as malformed.
+func setMetaHeader(w http.ResponseWriter, key, value string) {
+	for i := 0; i < len(value); i++ {
+		if c := value[i]; c < ' ' && c != '\t' || c == 0x7f {
+			return
+		}
+	}
+	w.Header().Set(key, value)
+}
+
+// escapeControlChars percent-encodes the control characters of a URL that goes into a response header.
+func escapeControlChars(u string) string {
+	var sb strings.Builder
+	for i := 0; i < len(u); i++ {
+		if c := u[i]; c < ' ' || c == 0x7f {
+			fmt.Fprintf(&sb, "%%%02X", c)
+		} else {
+			sb.WriteByte(c)
+		}
+	}
+	return sb.String()
 }
 
 func (g *GcsEmu) handleGcsMetadataRequest(ctx context.Context, baseUrl HttpBaseUrl, w http.ResponseWriter, bucket string, filename string) {
@@ -617,8 +642,8 @@ func (g *GcsEmu) handleGcsNewObject(ctx context.Context, baseUrl HttpBaseUrl, w 
 			Conds:  conds,
 		})
 
-		w.Header().Set("Location", ObjectUrl(baseUrl, bucket, obj.Name)+"?upload_id="+id)
-		w.Header().Set("Content-Type", obj.ContentType)
+		w.Header().Set("Location", escapeControlChars(ObjectUrl(baseUrl, bucket, obj.Name))+"?upload_id="+id)
+		setMetaHeader(w, "Content-Type", obj.ContentType)
 		w.WriteHeader(http.StatusOK)
 		return
 	case "multipart":
@@ -700,7 +725,7 @@ func (g *GcsEmu) handleGcsNewObjectResume(ctx context.Context, baseUrl HttpBaseU
 	if byteRange.sz < 0 || len(u.data) < int(byteRange.sz) {
 		// Not finished; save the contents and tell the client to resume.
 		w.Header().Set("Range", fmt.Sprintf("bytes=0-%d", len(u.data)-1))
-		w.Header().Set("Content-Type", u.Object.ContentType)
+		setMetaHeader(w, "Content-Type", u.Object.ContentType)
 		if r.Header.Get("X-Guploader-No-308") == "yes" {
 			w.Header().Set("X-Http-Status-Code-Override", "308")
 			w.WriteHeader(http.StatusOK)
